@@ -328,8 +328,11 @@ func c03Run(c *core.Ctx, o *so.Oracle, k c03Case) {
 		}
 	} else {
 		setOrRemoveAttr(rel.FindElement("./Status/StatusCode"), "Value", k.status)
-		if k.status.kind == "correct" && c.Rng.Intn(8) == 0 { // second-level code under Success is still Success
-			rel.FindElement("./Status/StatusCode").CreateElement("samlp:StatusCode").CreateAttr("Value", saml.StatusAuthnFailed)
+		if sc := rel.FindElement("./Status/StatusCode"); sc != nil && !k.status.absent && c.Rng.Intn(6) == 0 {
+			// a second-level code qualifies the top-level one and never replaces it: under Success it is still Success,
+			// and a nested Success does not rescue a failed top level
+			sc.CreateElement("samlp:StatusCode").CreateAttr("Value", []string{saml.StatusAuthnFailed, saml.StatusSuccess, saml.StatusPartialLogout}[c.Rng.Intn(3)])
+			c.Count("responses_with_second_level_status")
 		}
 	}
 	if k.signedResp {
